@@ -9,8 +9,10 @@ import (
 	"path/filepath"
 	"runtime"
 	"sort"
+	"strconv"
 	"strings"
 	"sync"
+	"sync/atomic"
 	"time"
 
 	"visim/app"
@@ -36,12 +38,12 @@ func init() {
 			"ThreadSanitizer keeps a bounded access history; worlds are kept short",
 			"the simulated disk is internally synchronised (like a kernel); races through it are not visible to the detector",
 		},
-		Real:       append(append([]string{}, realAll...), "db/fs (compiled against the simulated os)"),
-		Stub:       append(append([]string{}, stubAll...), "OS filesystem (simfs)", "goroutine scheduler decisions (baton, drawn from the tape)"),
+		Real:        append(append([]string{}, realAll...), "db/fs (compiled against the simulated os)"),
+		Stub:        append(append([]string{}, stubAll...), "OS filesystem (simfs)", "goroutine scheduler decisions (baton, drawn from the tape)"),
 		HangSeconds: 120, // single runs of this check take seconds, more on a loaded machine
-		FaultKinds: []string{"schedule_switch", "restart"},
-		After:      c19RacePhase,
-		AfterFirst: true,
+		FaultKinds:  []string{"schedule_switch", "restart"},
+		After:       c19RacePhase,
+		AfterFirst:  true,
 	})
 }
 
@@ -110,15 +112,21 @@ func runC19(c *core.Ctx) *core.Outcome {
 	if err := a.Validate(); err != nil {
 		panic("generator produced ill-formed app: " + err.Error())
 	}
-	// templates unique to this world, so that content-keyed caches hidden in the library start cold
-	nonce := fmt.Sprintf("w%d", c.RunIndex)
-	for _, n := range a.Nodes {
-		for lg, tpl := range n.Tpl {
-			if i := strings.Index(tpl, "|"); i >= 0 {
-				n.Tpl[lg] = tpl[:i+1] + nonce + " " + tpl[i+1:]
-			}
-		}
+	// one run in 6: sessions in different languages on the same paginated node (browse labels of different
+	// lengths): whatever the library derives from a label and keeps must not reach the session next to it
+	langRun := t.Chance(1, 6)
+	if langRun {
+		a = langPagedApp(t)
+		cfg.OutputSize = uint32(t.Range(48, 90))
+		cfg.CacheSize = 0
+		cfg.Language = ""
+		o.Probes["sessions_in_different_languages_on_one_paginated_node"]++
 	}
+	// Every world of this run - the concurrent one and the one each session is served alone in - gets its own
+	// instance of the application: templates and label symbols carry a stamp that no other world of the process
+	// has (c19Stamp), so that anything the library remembers process-wide by content or by name starts cold in
+	// each of them. What a session served alone sees is then what it sees in a process of its own; what it sees
+	// next to others may only differ if something leaked. Transcripts are compared with the stamps blanked.
 	nsess := []int{2, 2, 3, 3, 4, 6, 8, 16}[t.Int(8)]
 	bias := t.Chance(1, 2)
 	var ss []*c19Sess
@@ -129,6 +137,17 @@ func runC19(c *core.Ctx) *core.Outcome {
 		// inputs are chosen by walking the reference model (no library code runs here), so that
 		// the concurrent phase is the first to touch the library with this application
 		m := refvm.New(a, refvm.Cfg{FlagCount: cfg.FlagCount, CacheSize: cfg.CacheSize, Language: cfg.Language})
+		if langRun {
+			script := [][]byte{nil, []byte("1"), []byte("11"), []byte("22"), []byte("11")}
+			if k%2 == 1 {
+				script = [][]byte{nil, []byte("2"), []byte("0"), []byte("1"), []byte("11"), []byte("22")}
+			}
+			for i := range script {
+				s.inputs = append(s.inputs, script[i])
+				s.fresh = append(s.fresh, s.persisted && t.Chance(2, 3))
+			}
+			nreq = 0
+		}
 		for i := 0; i < nreq; i++ {
 			var in []byte
 			if i > 0 {
@@ -152,7 +171,9 @@ func runC19(c *core.Ctx) *core.Outcome {
 		t.End()
 	}
 	// concurrent run over one fresh copy of the shared tables
-	a2, bufs2 := withCanary(a)
+	stampC := c19NewStamp()
+	aC := c19Stamp(a, stampC)
+	a2, bufs2 := withCanary(aC)
 	var shared *simfs.FS
 	if useFs {
 		shared = simfs.New()
@@ -225,7 +246,9 @@ func runC19(c *core.Ctx) *core.Outcome {
 	o.TraceHash = h64(sb.String(), nsess)
 	// the same sessions served one after another, each in a fresh world over a fresh copy of the tables
 	for k, s := range ss {
-		a1, bufs1 := withCanary(a)
+		stampS := c19NewStamp()
+		aS := c19Stamp(a, stampS)
+		a1, bufs1 := withCanary(aS)
 		w := world.New(a1, cfg)
 		var disk *simfs.FS
 		if useFs {
@@ -236,6 +259,7 @@ func runC19(c *core.Ctx) *core.Outcome {
 		ws := w.NewSession(s.id, s.persisted)
 		for i := range s.inputs {
 			st := ws.Request(s.inputs[i], s.fresh[i])
+			c19Blank(st, stampS)
 			s.solo = append(s.solo, *st)
 			if st.Panic != "" || (st.ExecErr != "" && !st.Cont) || (!st.Cont && !s.persisted) {
 				break
@@ -246,7 +270,7 @@ func runC19(c *core.Ctx) *core.Outcome {
 		}
 		o.Counts["requests"] += len(s.solo) + len(s.conc)
 		o.Counts["sim_ticks"] += w.Rec.Ticks()
-		if msg := canaryIntact(a1, a, bufs1); msg != "" {
+		if msg := canaryIntact(a1, aS, bufs1); msg != "" {
 			o.Fail("shared-table-written", k, map[string]string{"phase": "solo"}, "serving session %s alone: %s", s.id, msg)
 			o.Scenario = scenario(w, nil)
 			return o
@@ -270,6 +294,11 @@ func runC19(c *core.Ctx) *core.Outcome {
 		}
 		return map[string]interface{}{"config": cfg, "app": a.Text(), "sessions": l, "schedule": sb.String(), "biased": bias}
 	}
+	for _, s := range ss {
+		for i := range s.conc {
+			c19Blank(&s.conc[i], stampC)
+		}
+	}
 	for k, s := range ss {
 		if len(s.solo) != len(s.conc) {
 			o.Fail("interference", k, nil, "session %s served %d requests alone but %d concurrently", s.id, len(s.solo), len(s.conc))
@@ -285,7 +314,7 @@ func runC19(c *core.Ctx) *core.Outcome {
 			}
 		}
 	}
-	if msg := canaryIntact(a2, a, bufs2); msg != "" {
+	if msg := canaryIntact(a2, aC, bufs2); msg != "" {
 		o.Fail("shared-table-written", 0, map[string]string{"phase": "concurrent"}, "serving %d sessions concurrently: %s", nsess, msg)
 		o.Scenario = scen()
 		return o
@@ -400,4 +429,55 @@ func binDir(verif string) string {
 
 func isAlnumPlus(b byte) bool {
 	return b == '+' || (b >= '0' && b <= '9') || (b >= 'a' && b <= 'z') || (b >= 'A' && b <= 'Z')
+}
+
+// c19Execs numbers the application instances built in this process. The number is not part of the run's tape:
+// it only names things (blanked before anything is compared or hashed), so that a second execution of the same
+// run - the determinism resample, the shrinker - does not find what the first one left behind in the library.
+var c19Execs uint64
+
+func c19NewStamp() string {
+	n := strconv.FormatUint(atomic.AddUint64(&c19Execs, 1)%60466176, 36) // 36^5
+	return "w" + strings.Repeat("0", 5-len(n)) + n
+}
+
+// c19Stamp returns a copy of the application whose template texts and label symbols carry the stamp.
+func c19Stamp(a *app.App, stamp string) *app.App {
+	b := &app.App{Root: a.Root, Ext: a.Ext, Langs: a.Langs, Labels: map[string]map[string]string{}}
+	ren := func(l string) string { return l + "_" + stamp }
+	for k, v := range a.Labels {
+		m := map[string]string{}
+		for lg, txt := range v {
+			m[lg] = txt
+		}
+		b.Labels[ren(k)] = m
+	}
+	for _, n := range a.Nodes {
+		nn := &app.Node{Name: n.Name, Kind: n.Kind, NegProbe: n.NegProbe, Tpl: map[string]string{}, Code: append([]app.Inst(nil), n.Code...)}
+		for lg, tpl := range n.Tpl {
+			if i := strings.Index(tpl, "|"); i >= 0 {
+				tpl = tpl[:i+1] + stamp + " " + tpl[i+1:]
+			}
+			nn.Tpl[lg] = tpl
+		}
+		for i := range nn.Code {
+			switch nn.Code[i].Op {
+			case app.MOUT, app.MNEXT, app.MPREV:
+				nn.Code[i].A = ren(nn.Code[i].A)
+			}
+		}
+		b.Nodes = append(b.Nodes, nn)
+	}
+	b.Index()
+	return b
+}
+
+// c19Blank replaces the stamp in everything of a step that is compared.
+func c19Blank(st *world.Step, stamp string) {
+	blank := strings.Repeat("#", len(stamp))
+	st.Out = strings.ReplaceAll(st.Out, stamp, blank)
+	st.ExecErr = strings.ReplaceAll(st.ExecErr, stamp, blank)
+	st.FlushErr = strings.ReplaceAll(st.FlushErr, stamp, blank)
+	st.FinishErr = strings.ReplaceAll(st.FinishErr, stamp, blank)
+	st.Panic = strings.ReplaceAll(st.Panic, stamp, blank)
 }
